@@ -328,3 +328,43 @@ Theorem C14_non_olt_refused : forall s t, t_cur t <> 0%N ->
   match t_op t with OCreate _ _ _ _ _ _ _ _ _ | OFund _ _ _ | OWithdraw _ _ _ _ => step s t = (s, false, []) | _ => True end.
 Proof. exact non_olt_refused. Qed.
 Print Assumptions C14_non_olt_refused.
+
+(* ---- (9) tallies on and next to the thresholds (the code decides in exact integer arithmetic since /repo 6d9c57c, as the
+   model always did): with powers 3350000 / 3300000 / 3350000 and 67%, a NO of exactly 33% leaves the proposal undecided,
+   a NO of 33.5% fails it, a YES of exactly 67% passes it.  Former finding C14.tally_float_boundary (fixed). ---- *)
+Example C14_tally_on_the_thresholds :
+  tally [mkVote 10 3350000 OpUnknown; mkVote 11 3300000 OpNo; mkVote 12 3350000 OpUnknown] 67 = RTBD /\
+  tally [mkVote 10 3350000 OpNo; mkVote 11 3300000 OpUnknown; mkVote 12 3350000 OpUnknown] 67 = RFailed /\
+  tally [mkVote 10 3350000 OpYes; mkVote 11 3300000 OpUnknown; mkVote 12 3350000 OpYes] 67 = RPassed /\
+  tally [mkVote 10 3350000 OpYes; mkVote 11 3300000 OpNo; mkVote 12 3350000 OpYes] 67 = RPassed /\
+  tally [mkVote 10 100 OpYes; mkVote 11 100 OpYes; mkVote 12 100 OpNo] 67 = RFailed.
+Proof. vm_compute. repeat split; reflexivity. Qed.
+
+(* "failed" means exactly: the recorded NO votes make a pass impossible even if everybody else votes YES *)
+Theorem C14_failed_iff_pass_unreachable : forall vs pass,
+  0 < power_all vs - power_of OpGiveup vs -> tally vs pass <> RPassed ->
+  (tally vs pass = RFailed <->
+   (power_all vs - power_of OpGiveup vs - power_of OpNo vs) * 100 < pass * (power_all vs - power_of OpGiveup vs)).
+Proof.
+  intros vs pass Ht Hnp. unfold tally in *. apply Z.ltb_lt in Ht. rewrite Ht in *.
+  destruct (pass * (power_all vs - power_of OpGiveup vs) <=? power_of OpYes vs * 100); [congruence|].
+  destruct ((power_all vs - power_of OpGiveup vs - power_of OpNo vs) * 100 <? pass * (power_all vs - power_of OpGiveup vs)) eqn:E.
+  - apply Z.ltb_lt in E. split; auto.
+  - apply Z.ltb_ge in E. split; [discriminate | lia].
+Qed.
+
+(* ---- (10) "... then passed, failed or expired, then finalised": FALSE of the faithful model (and of the code) for an
+   EXPIRED proposal whose goal was reached: it is never finalised, a public PROPOSAL_FINALIZE is refused (the tally is
+   undecided), a withdrawal is refused (the goal was reached): the funds are neither returned nor distributed.
+   Known finding C14.expired_never_finalised (a product decision, not a repair). ---- *)
+Theorem C14_expired_funds_locked_refuted : exists ts,
+  let s := (run init ts).1 in
+  (fun p => (p_store p, p_outcome p, p_total p, p_goal p)) <$> (g_props s !! 0%N) = Some (SFailed, OInsufVotes, 10, 10) /\
+  h_finalize s wenv 0%N = None /\ h_withdraw s 0%N 2%N 5 2%N = None /\ g_qfin (begin_block s 100) = [].
+Proof.
+  exists [wtx3 wopts67 (OAdjust 1%N 100); wtx3 wopts67 (OAdjust 2%N 100);
+          wtx3 wopts67 (OBegin 1); wtx3 wopts67 (OCreate 0%N TGeneral 1%N 5 3 8 10 67 true); wtx3 wopts67 (OFund 0%N 2%N 5); wtx3 wopts67 OEnd;
+          wtx3 wopts67 (OBegin 2); wtx3 wopts67 (OVote 0%N 10%N OpYes); wtx3 wopts67 OEnd;
+          wtx3 wopts67 (OBegin 7); wtx3 wopts67 OEnd; wtx3 wopts67 (OBegin 8)].
+  vm_compute. repeat split; reflexivity.
+Qed.
